@@ -281,7 +281,7 @@ func (t *c17Tool) sh(dir string, args ...string) (string, error) {
 }
 
 func c17(run *ev.Run) int {
-	run.SetRule("descriptor families built with descriptorpb (no protoc): package absent / single / dotted / mixed case; service and method names CamelCase, snake_case, lowerCamel, digits, leading underscore and every name whose lower-camel form is a Go keyword or predeclared identifier; 0..4 services x 0..6 methods (some files have only method-less services) x 4 streaming kinds; deprecated file/service/method; leading comments (multi-line, long, with comment tokens); go_package as option, option;name and M parameter; request/response types from another file and package. Per file: the real plugin binary built from the tree runs as a child process (twice; 24 times for files with >= 3 services) - exit status, determinism (also: the output for a file is the same when all files are generated in one invocation), go/parser, AST extraction of the three path literals, constructor and mount prefix per method; all generated packages are type-checked in one scratch module against the tree and then RUN: every method of every service is called through the generated client against the generated handler with recording interceptors on both sides; finally the checked-in ping.connect.go is compared with the generator's output for the descriptor embedded in the checked-in ping.pb.go; distinct by (package form, go_package form, services, options, name class)")
+	run.SetRule("descriptor families built with descriptorpb (no protoc): package absent / single / dotted / mixed case; service and method names CamelCase, snake_case, lowerCamel, digits, leading underscore and every name whose lower-camel form is a Go keyword or predeclared identifier; 0..4 services x 0..6 methods (some files have only method-less services) x 4 streaming kinds; deprecated file/service/method; leading comments (multi-line, long, with comment tokens); go_package as option, option;name and M parameter; request/response types from another file and package. Per file: the real plugin binary built from the tree runs as a child process (twice; 24 times for files with >= 3 services) - exit status, determinism (also: the output for a file is the same when all files are generated in one invocation), go/parser, AST extraction of the three path literals, constructor and mount prefix per method; all generated packages are type-checked in one scratch module against the tree and then RUN: every method of every service is called through the generated client against the generated handler with recording interceptors on both sides; finally the checked-in ping.connect.go is compared with the generator's output for the descriptor embedded in the checked-in ping.pb.go; distinct by (package form, go_package form, services, options, name class); history: a second file of the same package generated alone and after the first")
 	repo := os.Getenv("VERIF_REPO")
 	if repo == "" {
 		repo = "/repo"
